@@ -479,7 +479,7 @@ void CheckUnusedFunctions::analyseWholeProgram(const Settings &settings, ErrorLo
                     const char* file = e2->Attribute("file");
                     const char* column = default_if_null(e2->Attribute("column"), "0");
                     // cppcheck-suppress templateInstantiation - TODO: fix this - see #11631
-                    decls[functionName] = Location(file ? file : filesTxtInfo.sourceFile, strToInt<int>(lineNumber), strToInt<int>(column));
+                    decls.emplace(functionName, Location(file ? file : filesTxtInfo.sourceFile, strToInt<int>(lineNumber), strToInt<int>(column)));
                 }
             }
         }
